@@ -742,6 +742,22 @@ func (t *ftr) stmt(s ast.Stmt) string {
 		if _, ok := s.(*ast.EmptyStmt); ok {
 			return "Go.skip"
 		}
+		// copy(dst[lo:], src): as many bytes as fit are copied (silently truncated), dst keeps its length
+		if es, ok := s.(*ast.ExprStmt); ok {
+			if ce, ok := es.X.(*ast.CallExpr); ok && len(ce.Args) == 2 {
+				if f, ok := ce.Fun.(*ast.Ident); ok && f.Name == "copy" {
+					se, isSl := ce.Args[0].(*ast.SliceExpr)
+					src := t.x.stateName(ce.Args[1])
+					if isSl && se.Low != nil && se.High == nil && !se.Slice3 && src != "" && t.byName[src].kind == "bytes" {
+						if dst := t.x.stateName(se.X); dst != "" && t.byName[dst].kind == "bytes" && dst != src {
+							lo := t.x.exprAs(se.Low, ityp{64, true})
+							gs := append(t.guards(se.Low), fmt.Sprintf("(%s).toNat ≤ s.%s.length", lo, dst))
+							return "(fun s => " + withGuards(gs, fmt.Sprintf(".next { s with %s := Go.copyAt s.%s (%s).toNat s.%s }", dst, dst, lo, src)) + ")"
+						}
+					}
+				}
+			}
+		}
 	}
 	return t.fail(s, fmt.Sprintf("unsupported statement %T", s))
 }
@@ -950,7 +966,7 @@ func writeWireFuncs(p *pkgInfo, outPath string) {
 		"EncodeTag", "EncodeZigZag32", "EncodeZigZag64", "DecodeZigZag32", "DecodeZigZag64",
 		"Decoder.Offset", "Decoder.Reset", "Decoder.DecodeTag", "Decoder.DecodeUInt64", "Decoder.DecodeInt64", "Decoder.DecodeUInt32",
 		"Decoder.DecodeInt32", "Decoder.DecodeSInt32", "Decoder.DecodeSInt64", "Decoder.DecodeFixed32", "Decoder.DecodeFixed64",
-		"Decoder.DecodeBytes", "Decoder.Skip", "Decoder.DecodeBool", "Decoder.More", "Decoder.Seek", "Decoder.DecodePackedUint64", "Decoder.DecodePackedInt64", "Decoder.DecodePackedSint64", "Decoder.DecodePackedSint32", "Decoder.DecodePackedUint32", "Decoder.DecodePackedInt32", "Decoder.DecodePackedFixed64", "Decoder.DecodePackedFixed32", "Decoder.DecodePackedBool", "Encoder.EncodePackedUInt64", "Encoder.EncodePackedInt32", "Encoder.EncodePackedInt64", "Encoder.EncodePackedUInt32", "Encoder.EncodePackedSInt64", "Encoder.EncodePackedSInt32", "Encoder.EncodeBool",
+		"Decoder.DecodeBytes", "Decoder.Skip", "Decoder.DecodeBool", "Decoder.More", "Decoder.Seek", "Decoder.DecodePackedUint64", "Decoder.DecodePackedInt64", "Decoder.DecodePackedSint64", "Decoder.DecodePackedSint32", "Decoder.DecodePackedUint32", "Decoder.DecodePackedInt32", "Decoder.DecodePackedFixed64", "Decoder.DecodePackedFixed32", "Decoder.DecodePackedBool", "Encoder.EncodeBytes", "Encoder.EncodePackedUInt64", "Encoder.EncodePackedInt32", "Encoder.EncodePackedInt64", "Encoder.EncodePackedUInt32", "Encoder.EncodePackedSInt64", "Encoder.EncodePackedSInt32", "Encoder.EncodeBool",
 		"Encoder.EncodeUInt64", "Encoder.EncodeUInt32", "Encoder.EncodeInt64", "Encoder.EncodeInt32", "Encoder.EncodeSInt32", "Encoder.EncodeSInt64"} {
 		if errs := translateFunc(p, fn, &b); len(errs) > 0 {
 			fmt.Println("wire primitive", fn, "is outside the translatable fragment (Bridge/WireFuncs.lean no longer applies):")
